@@ -108,6 +108,15 @@ class JSONData(ABC):
     def __repr(self):
         return str(self)
 
+    def __eq__(self, other):
+        # two blobs of the same kind are equal when their JSON texts are
+        if not isinstance(other, JSONData):
+            return False
+        return self.__class__ is other.__class__ and self._data == other._data
+
+    def __hash__(self):
+        return hash((self.__class__.__name__, self._data))
+
 
 class MeasurementData(JSONData):
 
